@@ -255,11 +255,11 @@ int validate_chunk(zckChunk *idx, zck_log_type bad_checksum) {"""),
 
 CLAIM = {
     'technique': 'verdict-discipline analysis (path-sensitive class engine over the callers of the chunk verdict), '
-                 'release typestate on every caller of the end_dchunk slot, backend slot cross-check',
+                 'release typestate on every caller of the end_dchunk slot, backend slot cross-check, verdict-function gate on a byte-wise comparison primitive (OR-fold helpers recognised, XOR-fold rejected)',
     'text': 'static analysis: decides the mechanism C15 rests on - the chunk verdict (-1 mismatch / 0 error) can '
             'never reach a success exit of comp_end_dchunk/comp_read; every exit after the decode slot is verified, '
             'purged or poisoned; a unit-decoding backend does not release from its streaming slot; the decode slot is '
-            'reached only when the whole stored chunk was read. zstd itself is not analysed.',
+            'reached only when the whole stored chunk was read. zstd itself is not analysed. C15-d: validate_chunk is positive only on the equal edge of a byte-wise digest comparison.',
     'note': 'trusted: clang 14 front end; return-convention table; function-pointer slot resolution from the setup '
             'functions; purge = dc_data assigned NULL, poison = set_error_wf(fatal>=1)',
 }
